@@ -1,0 +1,12 @@
+//go:build verif
+
+// Copyright JAMF Software, LLC
+
+package storage
+
+import "github.com/lni/dragonboat/v4/raftio"
+
+// Re-exports for the verification harness (build tag verif). No logic.
+
+// VerifSystemEvents returns the listener the engine registers with dragonboat for system events.
+func (e *Engine) VerifSystemEvents() raftio.ISystemEventListener { return e.events }
